@@ -25,6 +25,9 @@ checks = {
  "C16": ("E1", E1,
    "All schedules (pre-emption bound 2, 1 for the larger lists; happens-before state cache) of PMap over lists of length 0-3 (thorough 0-4) x FixedPool in {no option,-1,0,1,2,len,len+1} x ordered/RandomOrder with a data-dependent-duration f that yields inside: result equals Map(f,list) (or a permutation), f applied exactly once per element, at most min(FixedPool,len) applications in flight, none after return, every execution terminates.",
    "Bounded list length/pre-emptions; SC interleavings; vsched runtime model.", "DESIGN.md §2, §5 C16"),
+ "C15": ("E1", E1,
+   "All schedules (pre-emption bound 2/3, delay bound 1/2 for the 8-9 thread coroutine scenarios; early timer firing as a deviation) of one closing thread against 1-3 users of the same object: Handler.Post, Actor.Send (also Close from inside the effect), BufferedChannelQueue Offer/Put/Take/TakeWithTimeout/Poll/GetChannel-receive/Count with the loader mid-pass, coroutine YieldFrom / YieldRef reply against a finishing coroutine (incl. more pending requests than the request buffer), WorkerPool Schedule with idle and busy workers. No goroutine may panic, the pool panic handler must stay silent, nothing may block forever, calls begun after Close returned must report it or be dropped.",
+   "Bounded users/pre-emptions; SC interleavings; vsched runtime model; virtual time.", "DESIGN.md §2, §5 C15"),
 }
 
 not_yet = "check not built yet in this round (see DESIGN.md §9 build order); no claim made"
